@@ -642,7 +642,23 @@ private:
             log_event(StructuredLogger::Level::Info,
                       "control.connection.accepted",
                       {{"remote", remote_address}});
-            handle_client(client, remote_address);
+            try {
+                handle_client(client, remote_address);
+            } catch (const std::exception& ex) {
+                // A request must never take the daemon down: report it and keep serving.
+                log_event(StructuredLogger::Level::Error,
+                          "control.request.exception",
+                          {{"remote", remote_address},
+                           {"error", ex.what()}});
+                try {
+                    send_response(client,
+                                  make_error("ERR_CONTROL_INTERNAL",
+                                             "Request could not be processed",
+                                             "Check the request fields and retry"),
+                                  false);
+                } catch (const std::exception&) {
+                }
+            }
             close_socket(client);
         }
     }
